@@ -40,13 +40,13 @@ func verifC15Text(host, inst string, i int) []byte {
 	return []byte(s + "):" + strconv.Itoa(i))
 }
 
-// verifC15Name: host / instance text: n bytes out of [.0-9a-z] (no quote, no colon, no backslash: Python's
+// verifC15Name: host / instance text: n bytes out of [.0-9A-Za-z] (Carbon hashes the text as the operator wrote it, upper case included: C15h; no quote, no colon, no backslash: Python's
 // repr would quote differently; all above '-' which the native realisation uses as suffix separator).
 func verifC15Name(tag string, n int) string {
 	s := verifString(tag, n)
 	for i := 0; i < n; i++ {
 		c := s[i]
-		verifAssume(verifOr(c == '.', verifOr(verifAnd(c >= '0', c <= '9'), verifAnd(c >= 'a', c <= 'z'))))
+		verifAssume(verifOr(verifOr(c == '.', verifAnd(c >= 'A', c <= 'Z')), verifOr(verifAnd(c >= '0', c <= '9'), verifAnd(c >= 'a', c <= 'z'))))
 	}
 	return s
 }
